@@ -660,3 +660,17 @@ M("c10-pair-ids-sixteen-bits", "C10", "cola/libavoid/orthogonal.cpp",
 M("c03-neutral-outside-visibility-local", "C03", "cola/libavoid/orthogonal.cpp",
   "            if (events[index]->v->c)\n            {\n                events[index]->v->c->visDirections |= addedVisibility;\n            }",
   "            VertInf *vert = events[index]->v->c;\n            if (vert)\n            {\n                vert->visDirections |= addedVisibility;\n            }", expect="silent")
+
+# ---------------------------------------------------------------- reverts of further repairs (round d, part 2)
+M("c02-refine-budget-per-iteration", "C02", "cola/libvpsc/solve_VPSC.cpp",
+  "                if(!(newcost<cost)) maxtries--;", "                maxtries--;", mention=["REFINE-BUDGET"])
+MUTANTS.append({"id": "c02-split-ignores-scale-both-copies", "prop": "C02", "expect": "fire", "mention": ["SPLIT-SCALE"], "tu": None, "edits": [
+    {"file": "cola/libvpsc/blocks.cpp", "old": "    r->posn = b->posn * b->ps.scale / r->ps.scale;", "new": "    r->posn = b->posn;", "count": 1},
+    {"file": "cola/libavoid/vpsc.cpp", "old": "    r->posn = b->posn * b->ps.scale / r->ps.scale;", "new": "    r->posn = b->posn;", "count": 1}]})
+M("c03-deleted-ends-not-queued", "C03", "cola/libavoid/router.cpp",
+  "                    modInfo.conns.push_back(std::make_pair(\n                            connEnd->endpointType(), freeEnd));\n                    actionList.push_back(modInfo);",
+  "                    modInfo.conns.push_back(std::make_pair(\n                            connEnd->endpointType(), freeEnd));", mention=["DELETED-OBSTACLE-ENDS"])
+M("c03-corner-centre-not-on-border", "C03", "cola/libavoid/visibility.cpp",
+  "        if (kPrev && kNext && (k->point == centerInf->point))", "        if (false && kPrev && kNext && (k->point == centerInf->point))", mention=["SWEEP-CHORD"])
+M("c13-tie-prunes-own-bend", "C13", "cola/libtopology/topology_constraints.cpp",
+  "    EdgePoint* victim=redundantBend(bendPoint);", "    EdgePoint* victim=bendPoint;", mention=["BEND-TIE"])
